@@ -5,7 +5,13 @@ package retry_test
 // C18 driver (engine Retry): a real ClientConn (retry policy from a default service config,
 // WithMaxCallAttempts, MaxRetryRPCBufferSize) against a real grpc.Server whose generic stream
 // handler follows a per-attempt script and logs what each attempt received; everything runs
-// in a synctest bubble over net.Pipe, so retry back-off timers are virtual.
+// in a synctest bubble over net.Pipe, so retry back-off timers are virtual.  RPCs whose scripts
+// contain an unprocessed stream (act 3 / 4) run on a second ClientConn of the same configuration
+// against a raw HTTP/2 server (x/net/http2 Framer) that follows the same scripts and can answer
+// HEADERS with RST_STREAM(REFUSED_STREAM) or with a GOAWAY whose last-stream-id is below the stream.
+// Outside the held-send schedule a client stats.Handler calls synctest.Wait() after every
+// transport write (OutHeader, OutPayload: original and replayed), so the failure of an attempt
+// is registered by the client before the next write: the schedule the model describes.
 //
 //	cfg [maxAttempts, channelMax, bufLimit, n, code_1..code_n]
 //	op  [m, size_1..size_m, k, (r, act, code, pb) x k]   one RPC: the application sends the m
@@ -13,16 +19,21 @@ package retry_test
 //	     until an error; attempt j (0-based, told apart by grpc-previous-rpc-attempts) is served
 //	     by script j (a missing script = success): read r messages (or until half-close), then
 //	     act 0 fail with code before headers (pushback pb: 0 none, 1 "1", 2 "-1", 3 two values),
-//	     act 1 send headers then fail with code, act 2 headers + one reply + OK
+//	     act 1 send headers then fail with code, act 2 headers + one reply + OK,
+//	     act 3 answer HEADERS with RST_STREAM(REFUSED_STREAM), act 4 answer HEADERS with
+//	     GOAWAY(last-stream-id = stream id - 2) (raw server; script = number of the attempt)
 //	op  [0, j, <op as above>]   the same RPC with two application goroutines: the SendMsg of
 //	     message j is held (by a client stats.Handler, at OutPayload = right after the transport
 //	     write on attempt 0, before withRetry re-takes cs.mu) until a concurrent RecvMsg has seen
 //	     attempt 0 fail, retried, and attempt 1 has received the replayed messages 1..j-1
+//	op  [-1, <op as above>]  the same RPC, but the application calls stream.Context() right after
+//	     NewStream (commits the attempt): nothing may be retried, not even transparently
 //	obs [nattempts, (grpc-previous-rpc-attempts, messages received, 1 iff they are messages
 //	     1..n in order with the right sizes, 1 iff the half-close was seen) x nattempts,
 //	     final status code seen by the application, replies received]
 
 import (
+	"bytes"
 	"context"
 	"errors"
 	"fmt"
@@ -35,6 +46,8 @@ import (
 	"testing/synctest"
 	"time"
 
+	"golang.org/x/net/http2"
+	"golang.org/x/net/http2/hpack"
 	"google.golang.org/grpc"
 	"google.golang.org/grpc/codes"
 	"google.golang.org/grpc/credentials/insecure"
@@ -70,6 +83,8 @@ type vRetryEnv struct {
 	armed   bool          // the hold has not been used yet
 	release chan struct{} // closed by attempt 1's handler once it has the replayed messages
 	relOnce *sync.Once
+	quiesce bool  // synctest.Wait() after every client transport write
+	rawN    int64 // attempts the raw server has seen for the current RPC
 }
 
 // client stats handler: holds the first SendMsg of message stallJ right after its transport write
@@ -77,8 +92,24 @@ func (e *vRetryEnv) TagRPC(ctx context.Context, _ *stats.RPCTagInfo) context.Con
 func (e *vRetryEnv) TagConn(ctx context.Context, _ *stats.ConnTagInfo) context.Context { return ctx }
 func (e *vRetryEnv) HandleConn(context.Context, stats.ConnStats)                       {}
 func (e *vRetryEnv) HandleRPC(_ context.Context, s stats.RPCStats) {
+	if oh, ok := s.(*stats.OutHeader); ok && oh.Client {
+		e.mu.Lock()
+		q := e.quiesce
+		e.mu.Unlock()
+		if q {
+			synctest.Wait()
+		}
+		return
+	}
 	op, ok := s.(*stats.OutPayload)
 	if !ok || !op.Client {
+		return
+	}
+	e.mu.Lock()
+	q := e.quiesce
+	e.mu.Unlock()
+	if q {
+		synctest.Wait()
 		return
 	}
 	b, ok := op.Payload.(*[]byte)
@@ -159,6 +190,157 @@ func (e *vRetryEnv) handler(_ any, stream grpc.ServerStream) error {
 	return nil
 }
 
+// ---- raw HTTP/2 server: same scripts, plus unprocessed streams ----
+type vRetryRawStream struct {
+	sc   vRetryScript
+	at   vRetryAttempt
+	buf  []byte
+	done bool
+}
+
+func (e *vRetryEnv) serveRaw(c net.Conn) {
+	defer c.Close()
+	pre := make([]byte, len(http2.ClientPreface))
+	if _, err := io.ReadFull(c, pre); err != nil {
+		return
+	}
+	fr := http2.NewFramer(c, c)
+	dec := hpack.NewDecoder(4096, nil)
+	var hb bytes.Buffer
+	enc := hpack.NewEncoder(&hb)
+	if fr.WriteSettings() != nil {
+		return
+	}
+	hdrs := func(id uint32, end bool, kv ...string) {
+		hb.Reset()
+		for i := 0; i+1 < len(kv); i += 2 {
+			enc.WriteField(hpack.HeaderField{Name: kv[i], Value: kv[i+1]})
+		}
+		fr.WriteHeaders(http2.HeadersFrameParam{StreamID: id, BlockFragment: hb.Bytes(), EndHeaders: true, EndStream: end})
+	}
+	logAt := func(a vRetryAttempt) {
+		e.mu.Lock()
+		e.log = append(e.log, a)
+		e.mu.Unlock()
+	}
+	act := func(id uint32, st *vRetryRawStream) {
+		st.done = true
+		logAt(st.at)
+		code := strconv.Itoa(int(st.sc.code))
+		switch st.sc.act {
+		case 0:
+			kv := []string{":status", "200", "content-type", "application/grpc", "grpc-status", code, "grpc-message", "verif: scripted failure"}
+			switch st.sc.pb {
+			case 1:
+				kv = append(kv, "grpc-retry-pushback-ms", "1")
+			case 2:
+				kv = append(kv, "grpc-retry-pushback-ms", "-1")
+			case 3:
+				kv = append(kv, "grpc-retry-pushback-ms", "1", "grpc-retry-pushback-ms", "2")
+			}
+			hdrs(id, true, kv...)
+		case 1:
+			hdrs(id, false, ":status", "200", "content-type", "application/grpc", "verif", "h")
+			hdrs(id, true, "grpc-status", code, "grpc-message", "verif: scripted failure after headers")
+		default:
+			hdrs(id, false, ":status", "200", "content-type", "application/grpc")
+			fr.WriteData(id, false, []byte{0, 0, 0, 0, 1, 42})
+			hdrs(id, true, "grpc-status", "0")
+		}
+	}
+	streams := map[uint32]*vRetryRawStream{}
+	for {
+		f, err := fr.ReadFrame()
+		if err != nil {
+			return
+		}
+		switch f := f.(type) {
+		case *http2.SettingsFrame:
+			if !f.IsAck() {
+				fr.WriteSettingsAck()
+			}
+		case *http2.PingFrame:
+			if !f.IsAck() {
+				fr.WritePing(true, f.Data)
+			}
+		case *http2.HeadersFrame:
+			fields, _ := dec.DecodeFull(f.HeaderBlockFragment())
+			id := f.StreamID
+			prev := int64(0)
+			for _, hf := range fields {
+				if hf.Name == "grpc-previous-rpc-attempts" {
+					p, _ := strconv.Atoi(hf.Value)
+					prev = int64(p)
+				}
+			}
+			e.mu.Lock()
+			sc := vRetryScript{r: 1, act: 2}
+			if e.rawN < int64(len(e.scripts)) {
+				sc = e.scripts[e.rawN]
+			}
+			e.rawN++
+			e.mu.Unlock()
+			st := &vRetryRawStream{sc: sc, at: vRetryAttempt{prev: prev, inorder: 1}}
+			streams[id] = st
+			switch sc.act {
+			case 3:
+				st.done = true
+				logAt(st.at)
+				fr.WriteRSTStream(id, http2.ErrCodeRefusedStream)
+			case 4:
+				st.done = true
+				logAt(st.at)
+				last := uint32(0)
+				if id >= 2 {
+					last = id - 2
+				}
+				fr.WriteGoAway(last, http2.ErrCodeNo, nil)
+			default:
+				if f.StreamEnded() {
+					st.at.eof = 1
+					act(id, st)
+				}
+			}
+		case *http2.DataFrame:
+			id := f.StreamID
+			if n := len(f.Data()); n > 0 {
+				fr.WriteWindowUpdate(0, uint32(n))
+			}
+			st := streams[id]
+			if st == nil || st.done {
+				continue
+			}
+			st.buf = append(st.buf, f.Data()...)
+			e.mu.Lock()
+			sizes := e.sizes
+			e.mu.Unlock()
+			for !st.done && len(st.buf) >= 5 {
+				n := int(st.buf[1])<<24 | int(st.buf[2])<<16 | int(st.buf[3])<<8 | int(st.buf[4])
+				if len(st.buf) < 5+n {
+					break
+				}
+				b := st.buf[5 : 5+n]
+				if st.at.n >= int64(len(sizes)) || int64(n) != sizes[st.at.n] || (n > 0 && int64(b[0]) != st.at.n+1) {
+					st.at.inorder = 0
+				}
+				st.buf = st.buf[5+n:]
+				st.at.n++
+				if st.at.n >= st.sc.r {
+					act(id, st)
+				}
+			}
+			if !st.done && f.StreamEnded() {
+				st.at.eof = 1
+				act(id, st)
+			}
+		case *http2.RSTStreamFrame:
+			if st := streams[f.StreamID]; st != nil {
+				st.done = true
+			}
+		}
+	}
+}
+
 type vRetryLis struct {
 	ch   chan net.Conn
 	done chan struct{}
@@ -195,7 +377,7 @@ func vRetryDecode(op []int64) (sizes []int64, scs []vRetryScript, ok bool) {
 	}
 	for i := int64(0); i < k; i++ {
 		s := vRetryScript{rest[4*i], rest[4*i+1], rest[4*i+2], rest[4*i+3]}
-		if s.r < 1 || s.act < 0 || s.act > 2 || s.code < 1 || s.code > 16 || s.pb < 0 || s.pb > 3 {
+		if s.r < 1 || s.act < 0 || s.act > 4 || s.code < 1 || s.code > 16 || s.pb < 0 || s.pb > 3 {
 			return nil, nil, false
 		}
 		scs = append(scs, s)
@@ -238,23 +420,48 @@ func vRetryExecIn(cfg []int64, ops [][]int64) ([][]int64, bool, []string) {
 	if err != nil {
 		panic("verif: NewClient: " + err.Error())
 	}
+	rawDialer := func(ctx context.Context, _ string) (net.Conn, error) {
+		c1, c2 := net.Pipe()
+		go env.serveRaw(c2)
+		return c1, nil
+	}
+	ccRaw, err := grpc.NewClient("passthrough:///verifraw",
+		grpc.WithTransportCredentials(insecure.NewCredentials()),
+		grpc.WithContextDialer(rawDialer),
+		grpc.WithDefaultServiceConfig(sc),
+		grpc.WithMaxCallAttempts(int(cfg[1])),
+		grpc.WithStatsHandler(env),
+	)
+	if err != nil {
+		panic("verif: NewClient: " + err.Error())
+	}
 	defer func() {
+		env.mu.Lock()
+		env.quiesce = false
+		env.mu.Unlock()
+		ccRaw.Close()
 		cc.Close()
 		srv.Stop()
 		lis.Close()
 		synctest.Wait()
 	}()
 	cc.Connect()
+	ccRaw.Connect()
 	synctest.Wait()
 
 	desc := &grpc.StreamDesc{StreamName: "M", ClientStreams: true, ServerStreams: true}
 	var out [][]int64
-	retried, bounded, stalled := false, false, false
+	retried, bounded, stalled, transparent, unprocCounted, midOverflow, precommitted := false, false, false, false, false, false, false
 	for _, op := range ops {
 		stallJ := int64(0)
 		if len(op) > 2 && op[0] == 0 {
 			stallJ = op[1]
 			op = op[2:]
+		}
+		precommit := false
+		if len(op) > 1 && op[0] == -1 {
+			precommit = true
+			op = op[1:]
 		}
 		sizes, scs, ok := vRetryDecode(op)
 		if !ok {
@@ -263,18 +470,36 @@ func vRetryExecIn(cfg []int64, ops [][]int64) ([][]int64, bool, []string) {
 		if stallJ != 0 && (stallJ < 2 || stallJ > int64(len(sizes)) || len(scs) < 2 || scs[0].r != stallJ || scs[0].act != 0 || scs[0].pb > 1 || scs[1].r < stallJ) {
 			continue
 		}
+		useRaw := false
+		for _, s := range scs {
+			if s.act >= 3 {
+				useRaw = true
+			}
+		}
+		if stallJ != 0 && useRaw {
+			continue
+		}
+		conn := cc
+		if useRaw {
+			conn = ccRaw
+		}
 		env.mu.Lock()
 		env.scripts, env.sizes, env.log = scs, sizes, nil
+		env.quiesce, env.rawN = stallJ == 0, 0
 		env.stallJ, env.armed, env.release, env.relOnce = stallJ, false, make(chan struct{}), &sync.Once{}
 		env.mu.Unlock()
 		// a (virtual) one-hour deadline turns a lost message / deadlock into a status instead of a hang
 		ctx, cancel := context.WithTimeout(context.Background(), time.Hour)
 		final, replies := int64(0), int64(0)
-		stream, err := cc.NewStream(ctx, desc, "/verif.S/M", grpc.CallContentSubtype("verifraw"), grpc.MaxRetryRPCBufferSize(int(cfg[2])))
+		stream, err := conn.NewStream(ctx, desc, "/verif.S/M", grpc.CallContentSubtype("verifraw"), grpc.MaxRetryRPCBufferSize(int(cfg[2])))
 		if err != nil {
 			final = int64(status.Code(err))
 		} else {
 			synctest.Wait()
+			if precommit {
+				stream.Context() // commits the attempt
+				precommitted = true
+			}
 			recvAll := func() {
 				for {
 					var b []byte
@@ -323,6 +548,7 @@ func vRetryExecIn(cfg []int64, ops [][]int64) ([][]int64, bool, []string) {
 		}
 		env.mu.Lock()
 		env.relOnce.Do(func() { close(env.release) })
+		env.quiesce = false
 		env.mu.Unlock()
 		cancel()
 		synctest.Wait()
@@ -337,6 +563,21 @@ func vRetryExecIn(cfg []int64, ops [][]int64) ([][]int64, bool, []string) {
 		out = append(out, o)
 		if len(lg) > 1 {
 			retried = true
+			if lg[1].prev == 0 && scs[0].act >= 3 {
+				transparent = true
+			}
+			for i := 1; i+1 < len(lg) && i < len(scs); i++ {
+				if scs[i].act >= 3 {
+					unprocCounted = true
+				}
+			}
+			var cum int64
+			for i, s := range sizes {
+				cum += 5 + s
+				if i > 0 && cum > cfg[2] {
+					midOverflow = true
+				}
+			}
 		}
 		if int64(len(lg)) == min(cfg[0], cfg[1]) && len(lg) > 1 {
 			bounded = true
@@ -348,6 +589,18 @@ func vRetryExecIn(cfg []int64, ops [][]int64) ([][]int64, bool, []string) {
 	}
 	if stalled {
 		tags = append(tags, "held-send")
+	}
+	if transparent {
+		tags = append(tags, "transparent-retry")
+	}
+	if precommitted {
+		tags = append(tags, "committed-by-application")
+	}
+	if unprocCounted {
+		tags = append(tags, "unprocessed-later-attempt-retried")
+	}
+	if midOverflow {
+		tags = append(tags, "retried-rpc-with-mid-stream-overflow")
 	}
 	return out, retried, tags
 }
@@ -380,29 +633,19 @@ func vRetryGen(r *vRand, tier string, idx int) ([]int64, [][]int64) {
 	for i := 0; i < n; i++ {
 		m := int64(1 + r.Intn(4))
 		op := []int64{m}
-		budget := bl
 		for j := int64(0); j < m; j++ {
 			s := int64(1 + r.Intn(20))
-			if budget < 5+s {
-				s = 1
+			if bl < 1000 && r.Chance(30) {
+				s = int64(1 + r.Intn(int(bl))) // the replay buffer limit may be exceeded at any message
 			}
-			if j == 0 && r.Chance(8) && bl < 1000 {
+			if j == 0 && r.Chance(6) && bl < 1000 {
 				s = bl // first message alone exceeds the replay buffer limit
-				budget = 1 << 40
 			}
-			if budget < 5+s && budget < (1<<39) {
-				m = j
-				break
-			}
-			budget -= 5 + s
 			op = append(op, s)
 		}
-		if m == 0 {
-			continue
-		}
-		op[0] = m
 		k := int64(r.Intn(8))
 		op = append(op, k)
+		unp := r.Chance(35) // this RPC meets unprocessed streams (raw server)
 		for j := int64(0); j < k; j++ {
 			act := r.PickI64(0, 0, 0, 0, 0, 0, 0, 1, 2)
 			code := r.PickI64(14, 14, 14, 8, 4, 13, 10, 2)
@@ -410,11 +653,17 @@ func vRetryGen(r *vRand, tier string, idx int) ([]int64, [][]int64) {
 				code = cs[r.Intn(len(cs))]
 			}
 			pb := r.PickI64(0, 0, 0, 0, 0, 1, 1, 2, 3)
+			if unp && (j == 0 && r.Chance(70) || j > 0 && r.Chance(20)) {
+				act = r.PickI64(3, 4)
+			}
 			op = append(op, int64(1+r.Intn(int(m)+1)), act, code, pb)
+		}
+		if r.Chance(8) {
+			ops = append(ops, append([]int64{-1}, op...)) // committed by the application before sending
 		}
 		ops = append(ops, op)
 		// the held-send schedule of a multi-message RPC
-		if m >= 2 && r.Chance(35) && bl >= 1000 {
+		if m >= 2 && r.Chance(35) && bl >= 1000 && !unp {
 			j := int64(2 + r.Intn(int(m)-1))
 			st := append([]int64{0, j}, op[:1+int(m)]...)
 			k2 := int64(2 + r.Intn(3))
@@ -428,13 +677,23 @@ func vRetryGen(r *vRand, tier string, idx int) ([]int64, [][]int64) {
 	}
 	if idx == 0 {
 		ops = [][]int64{
-			{0, 2, 2, 1, 1, 2, 2, 0, 14, 0, 3, 2, 1, 0},                      // SendMsg(2) overtaken by a retry done by RecvMsg
-			{0, 3, 3, 2, 2, 2, 3, 3, 0, 8, 1, 4, 0, 14, 0, 4, 2, 1, 0},          // held third message, two retries
-			{1, 3, 3, 1, 0, 14, 0, 1, 0, 8, 1, 1, 0, 14, 0},                // three failures, fourth attempt succeeds
+			{0, 2, 2, 1, 1, 2, 2, 0, 14, 0, 3, 2, 1, 0},                                // SendMsg(2) overtaken by a retry done by RecvMsg
+			{0, 3, 3, 2, 2, 2, 3, 3, 0, 8, 1, 4, 0, 14, 0, 4, 2, 1, 0},                 // held third message, two retries
+			{1, 3, 3, 1, 0, 14, 0, 1, 0, 8, 1, 1, 0, 14, 0},                            // three failures, fourth attempt succeeds
 			{1, 3, 5, 1, 0, 14, 0, 1, 0, 14, 0, 1, 0, 14, 0, 1, 0, 14, 0, 1, 0, 14, 0}, // bound
-			{2, 3, 4, 2, 3, 0, 14, 0, 1, 1, 14, 0},                          // half-close replayed; headers then fail
-			{1, 64, 1, 1, 0, 14, 0},                                         // first message overflows the buffer: committed
+			{2, 3, 4, 2, 3, 0, 14, 0, 1, 1, 14, 0},                                     // half-close replayed; headers then fail
+			{1, 64, 1, 1, 0, 14, 0},                                                    // first message overflows the buffer: committed
 			{1, 3, 1, 1, 0, 14, 2}, {1, 3, 1, 1, 0, 14, 3}, {1, 3, 1, 1, 0, 4, 0},
+			{1, 3, 2, 1, 3, 14, 0, 1, 0, 14, 0},                                        // REFUSED_STREAM on the first attempt: transparent retry, then a counted one
+			{2, 3, 3, 2, 1, 4, 14, 0, 3, 2, 1, 0},                                      // GOAWAY below the stream id: transparent retry on a new connection
+			{1, 3, 5, 1, 3, 14, 0, 1, 0, 14, 0, 1, 0, 14, 0, 1, 0, 14, 0, 1, 0, 14, 0}, // transparent retry + the full bound of counted attempts
+			{1, 3, 4, 1, 0, 14, 0, 1, 4, 14, 0, 1, 3, 14, 0, 1, 0, 4, 0},               // unprocessed later attempts are counted retries (UNAVAILABLE)
+			{1, 3, 3, 1, 3, 14, 0, 1, 3, 14, 0, 1, 1, 14, 0},                           // refused twice: second refusal is a counted retry
+			{3, 20, 20, 20, 3, 2, 0, 14, 0, 3, 0, 14, 0, 1, 0, 14, 0},                  // buffer limit exceeded by the third message: no retry after it
+			{3, 20, 20, 20, 3, 1, 0, 14, 0, 2, 0, 14, 0, 3, 0, 14, 0},                  // same, two retries before
+			{-1, 1, 3, 2, 1, 3, 14, 0, 1, 0, 14, 0},                                    // committed by the application, then refused: no transparent retry
+			{-1, 1, 3, 2, 1, 0, 14, 0, 1, 0, 14, 0},                                    // committed by the application: no policy retry
+			{1, 64, 2, 1, 3, 14, 0, 1, 0, 14, 0},                                       // refused before the overflowing first message is buffered: transparent retry, then committed
 		}
 	}
 	return cfg, ops
